@@ -1,6 +1,6 @@
 (* Props/C18.v -- property C18: digest credentials verify under RFC 7616 on first use and every reuse *)
 From Coq Require Import List NArith Bool.
-From EZK Require Import Lib.Bytes Model.C18 Proofs.C18.
+From EZK Require Import Gen.Tables Lib.Bytes Model.C18 Proofs.C18.
 Import ListNotations.
 Open Scope N_scope.
 
@@ -37,6 +37,22 @@ Proof. exact creds_by_realm. Qed.
 Theorem C18_credentials_default : forall st realm,
   store_get realm (fst st) = None -> creds_for st realm = snd st.
 Proof. exact creds_default. Qed.
+
+(* the credentials stored for a realm are the ones given last (add_for_realm replaces); other realms and the default are untouched *)
+Theorem C18_store_guard : auth_store_add_replaces = true.
+Proof. reflexivity. Qed.
+
+Theorem C18_stored_last_wins : forall realm c st,
+  auth_store_add_replaces = true -> creds_for (add_for_realm realm c st) realm = Some c.
+Proof. exact add_for_realm_chosen. Qed.
+
+Theorem C18_store_other_realms_kept : forall realm realm' c st,
+  realm' <> realm -> creds_for (add_for_realm realm c st) realm' = creds_for st realm'.
+Proof. exact add_for_realm_others. Qed.
+
+Theorem C18_default_only_without_entry : forall c st realm,
+  creds_for (set_default c st) realm = match store_get realm (fst st) with Some x => Some x | None => Some c end.
+Proof. exact set_default_spec. Qed.
 
 (* only the first supported challenge of a realm is answered *)
 Theorem C18_first_supported_only : forall enforce rej es l p ch,
